@@ -3,7 +3,7 @@
 // contract is chrono's documented behaviour.  `dur_ns` / `ts_ns` are the mathematical instants.
 pub mod chrono {
     use super::*;
-    pub use crate::chrono_types::{DateTime, FixedOffset, Duration};
+    pub use crate::chrono_types::{DateTime, FixedOffset, Duration, Utc, ParseError};
     #[verifier::external_type_specification]
     #[verifier::external_body]
     #[verifier::accept_recursive_types(Tz)]
